@@ -710,8 +710,17 @@ pub fn connector_of(cfg: &ClientCfg) -> Connector {
     c
 }
 
+/// like run_tls, handing every bitmap event to `on_bitmap`
+pub fn run_tls_with_events(cfg: &ClientCfg, scfg: &TlsServerCfg, reads: usize, do_shutdown: bool, on_bitmap: &mut dyn FnMut(rdp::core::event::BitmapEvent)) -> TlsRun {
+    run_tls_inner(cfg, scfg, reads, do_shutdown, &mut |_| (), Some(on_bitmap))
+}
+
 /// One whole connection through the public entry point. `reads` = number of RdpClient::read calls to make after connect.
 pub fn run_tls(cfg: &ClientCfg, scfg: &TlsServerCfg, reads: usize, do_shutdown: bool, extra: &mut dyn FnMut(&mut RdpClient<Tee>)) -> TlsRun {
+    run_tls_inner(cfg, scfg, reads, do_shutdown, extra, None)
+}
+
+fn run_tls_inner(cfg: &ClientCfg, scfg: &TlsServerCfg, reads: usize, do_shutdown: bool, extra: &mut dyn FnMut(&mut RdpClient<Tee>), mut on_bitmap: Option<&mut dyn FnMut(rdp::core::event::BitmapEvent)>) -> TlsRun {
     let (a, b) = UnixStream::pair().expect("socketpair");
     let _ = a.set_read_timeout(Some(Duration::from_secs(TIMEOUT_S)));
     let _ = a.set_write_timeout(Some(Duration::from_secs(TIMEOUT_S)));
@@ -728,7 +737,16 @@ pub fn run_tls(cfg: &ClientCfg, scfg: &TlsServerCfg, reads: usize, do_shutdown: 
     let connect = match r {
         Res::Ok(mut client) => {
             for _ in 0..reads {
-                let (r, _) = call(|| client.read(|e| if let rdp::core::event::RdpEvent::Bitmap(_) = e { bitmaps += 1 }));
+                let (r, _) = call(|| {
+                    client.read(|e| {
+                        if let rdp::core::event::RdpEvent::Bitmap(b) = e {
+                            bitmaps += 1;
+                            if let Some(f) = on_bitmap.as_mut() {
+                                f(b)
+                            }
+                        }
+                    })
+                });
                 let stop = !r.is_ok();
                 if let Res::Err(e) = &r {
                     if e.contains("WouldBlock") || e.contains("TimedOut") {
